@@ -103,6 +103,11 @@ class World:
                 # than a write may take (C16: "cannot hold server resources beyond the configured bounds").
                 st = self.socket_timeout
                 age = self.net.loop.time() - (t.close_called_at if t.close_called_at is not None else self.net.loop.time())
+                if expect_server_closed:
+                    # Server.close() has returned: "leaves no task, socket or listener of the server behind"
+                    out.append(f"lingering-transport c{t.conn.id} (port {t.conn.port}): still open after Server.close() returned; the "
+                               f"peer does not read and holds the server's socket with {len(t.out.sendbuf)} unsent bytes")
+                    continue
                 if st is None or age <= st + 0.01:
                     continue
                 out.append(f"lingering-transport c{t.conn.id} (port {t.conn.port}): close() was called {age:.2f}s ago, socket_timeout is "
